@@ -145,7 +145,7 @@ Qed.
 
 (* ---------------- every table the builder makes has distinct property names ---------------- *)
 
-Theorem custom_slots_NoDup_lemma : forall k V n xt user, NoDup (names (custom_slots k V n xt user)).
+Theorem custom_slots_NoDup_lemma : forall bv k V n xt user, NoDup (names (custom_slots bv k V n xt user)).
 Proof.
   intros. destruct k; simpl; try apply ordered_dict_NoDup.
   unfold extension_slots. destruct xt as [[| | | |]|]; try apply ordered_dict_NoDup;
@@ -154,18 +154,18 @@ Proof.
 Qed.
 
 (* nothing appears in the table but the standard properties and the user's *)
-Definition standard_slots (k : ckind) (V : ver) (n : ustring) (xt : option Registry.exttype) : list slot :=
+Definition standard_slots (bv : bvar) (k : ckind) (V : ver) (n : ustring) (xt : option Registry.exttype) : list slot :=
   match k with
-  | CObject => sdo_pre V n ++ sdo_post V
+  | CObject => sdo_pre V n ++ sdo_post bv V
   | CObservable => sco_pre V n ++ sco_post V
   | CMarking => []
   | CExtension => match xt with Some x => [s_extension_type x] | None => [] end
   end.
 
-Lemma custom_slots_In_lemma : forall k V n xt user s,
-  In s (custom_slots k V n xt user) -> In s (standard_slots k V n xt) \/ In s user.
+Lemma custom_slots_In_lemma : forall bv k V n xt user s,
+  In s (custom_slots bv k V n xt user) -> In s (standard_slots bv k V n xt) \/ In s user.
 Proof.
-  intros k V n xt user s H. destruct k; simpl in *.
+  intros bv k V n xt user s H. destruct k; simpl in *.
   - apply ordered_dict_In in H. unfold object_pairs in H. rewrite !in_app_iff in H. rewrite in_app_iff.
     destruct H as [H | [H | [H | H]]]; auto.
     + apply filter_In in H. tauto.
@@ -195,13 +195,14 @@ Proof.
   congruence.
 Qed.
 
+Definition bv0 : bvar := {| b_conf_range := false |}.
 Definition standard_names (k : ckind) (V : ver) : list ustring :=
-  names (standard_slots k V [] (Some Registry.XPropertyExt)).
+  names (standard_slots bv0 k V [] (Some Registry.XPropertyExt)).
 
-Lemma standard_names_indep : forall k V n xt,
-  (k = CExtension -> xt <> None) -> names (standard_slots k V n xt) = standard_names k V.
+Lemma standard_names_indep : forall bv k V n xt,
+  (k = CExtension -> xt <> None) -> names (standard_slots bv k V n xt) = standard_names k V.
 Proof.
-  intros k V n xt H. destruct k, V; try reflexivity; destruct xt as [x|]; try reflexivity; exfalso; apply H; auto.
+  intros bv k V n xt H. destruct k, V; try reflexivity; destruct xt as [x|]; try reflexivity; exfalso; apply H; auto.
 Qed.
 
 Lemma standard_names_NoDup : forall k V, NoDup (standard_names k V).
@@ -236,14 +237,14 @@ Proof. intros. apply Permutation_map. assumption. Qed.
 
 (* objects: when the user's names are distinct and none is a standard name, the table is
    exactly  standard ++ user's non-x_ ++ standard ++ user's x_ (sorted by name) *)
-Theorem object_table_shape_lemma : forall V n user,
+Theorem object_table_shape_lemma : forall bv V n user,
   NoDup (names user) -> (forall s, In s user -> ~ In (sname s) (standard_names CObject V)) ->
-  custom_slots CObject V n None user =
-  sdo_pre V n ++ filter (fun s => negb (starts_x s)) user ++ sdo_post V ++ sort_by_name (filter starts_x user).
+  custom_slots bv CObject V n None user =
+  sdo_pre V n ++ filter (fun s => negb (starts_x s)) user ++ sdo_post bv V ++ sort_by_name (filter starts_x user).
 Proof.
-  intros V n user ND D. simpl. apply ordered_dict_distinct. unfold object_pairs.
+  intros bv V n user ND D. simpl. apply ordered_dict_distinct. unfold object_pairs.
   pose proof (standard_names_NoDup CObject V) as SN.
-  rewrite <- (standard_names_indep CObject V n None) in SN by discriminate. simpl in SN.
+  rewrite <- (standard_names_indep bv CObject V n None) in SN by discriminate. simpl in SN.
   unfold names in *. rewrite !map_app in *.
   (* rearrange: pre ++ nonx ++ post ++ xs  is a permutation of  (pre ++ post) ++ (nonx ++ xs) *)
   eapply Permutation_NoDup.
@@ -267,22 +268,22 @@ Proof.
         - apply filter_In in Ia. exists a. tauto.
         - apply (proj1 (sort_In _ _)) in Ia. apply filter_In in Ia. exists a. tauto. }
       apply (D s Is). rewrite Es.
-      rewrite <- (standard_names_indep CObject V n None) by discriminate. unfold names. simpl. rewrite map_app. exact Ix.
+      rewrite <- (standard_names_indep bv CObject V n None) by discriminate. unfold names. simpl. rewrite map_app. exact Ix.
 Qed.
 
-Theorem observable_table_shape_lemma : forall V n user,
+Theorem observable_table_shape_lemma : forall bv V n user,
   NoDup (names user) -> (forall s, In s user -> ~ In (sname s) (standard_names CObservable V)) ->
-  custom_slots CObservable V n None user = sco_pre V n ++ user ++ sco_post V.
+  custom_slots bv CObservable V n None user = sco_pre V n ++ user ++ sco_post V.
 Proof.
-  intros V n user ND D. simpl. apply ordered_dict_distinct. unfold observable_pairs.
+  intros bv V n user ND D. simpl. apply ordered_dict_distinct. unfold observable_pairs.
   pose proof (standard_names_NoDup CObservable V) as SN.
-  rewrite <- (standard_names_indep CObservable V n None) in SN by discriminate. simpl in SN.
+  rewrite <- (standard_names_indep bv CObservable V n None) in SN by discriminate. simpl in SN.
   unfold names in *. rewrite !map_app in *.
   eapply Permutation_NoDup.
   - apply Permutation_sym. apply Permutation_app_head. apply Permutation_app_comm.
   - rewrite app_assoc. apply NoDup_app_disjoint; auto.
     intros x Ix F. apply in_map_iff in F. destruct F as [s [Es Is]]. apply (D s Is). rewrite Es.
-    rewrite <- (standard_names_indep CObservable V n None) by discriminate. unfold names. simpl. rewrite map_app. exact Ix.
+    rewrite <- (standard_names_indep bv CObservable V n None) by discriminate. unfold names. simpl. rewrite map_app. exact Ix.
 Qed.
 
 (* whatever the user passes: a standard property whose name the user does not use is in the
@@ -323,16 +324,16 @@ Proof.
     destruct (ustr_eqb (sname s) (sname c)); simpl; auto.
 Qed.
 
-Theorem standard_property_intact_lemma : forall k V n user s,
+Theorem standard_property_intact_lemma : forall bv k V n user s,
   (k = CObject \/ k = CObservable) ->
-  In s (standard_slots k V n None) -> (forall t, In t user -> sname t <> sname s) ->
-  find_slot (custom_cls k V n None user (u "C")) (sname s) = Some s.
+  In s (standard_slots bv k V n None) -> (forall t, In t user -> sname t <> sname s) ->
+  find_slot (custom_cls bv k V n None user (u "C")) (sname s) = Some s.
 Proof.
-  intros k V n user s K I D. unfold find_slot, custom_cls. cbn [cslots].
+  intros bv k V n user s K I D. unfold find_slot, custom_cls. cbn [cslots].
   apply find_self; [apply custom_slots_NoDup_lemma|].
   pose proof (standard_names_NoDup k V) as SN.
-  rewrite <- (standard_names_indep k V n None) in SN by (destruct K; subst; discriminate).
-  assert (U : forall t, In t (standard_slots k V n None) \/ In t user -> sname t = sname s -> t = s).
+  rewrite <- (standard_names_indep bv k V n None) in SN by (destruct K; subst; discriminate).
+  assert (U : forall t, In t (standard_slots bv k V n None) \/ In t user -> sname t = sname s -> t = s).
   { intros t [It | It] E; [|exfalso; apply (D t It E)]. apply (NoDup_names_inj _ t s SN It I E). }
   destruct K; subst k; simpl in *.
   - apply slots_update_last.
@@ -353,10 +354,10 @@ Definition slot_kind_ok (s : slot) : bool := kind_refines (skind s) (skind s).
 Lemma ver_eqb_refl : forall v, ver_eqb v v = true.
 Proof. destruct v; reflexivity. Qed.
 
-Lemma standard_kinds_ok : forall k V n xt s, In s (standard_slots k V n xt) -> slot_kind_ok s = true.
+Lemma standard_kinds_ok : forall bv k V n xt s, In s (standard_slots bv k V n xt) -> slot_kind_ok s = true.
 Proof.
-  intros k V n xt s I. unfold slot_kind_ok.
-  destruct k, V; simpl in I; try contradiction;
+  intros bv k V n xt s I. unfold slot_kind_ok.
+  destruct bv as [[|]], k, V; simpl in I; try contradiction;
     try (destruct xt as [x|]; simpl in I; try contradiction);
     repeat (destruct I as [<- | I]; [simpl; rewrite ?ueqb_refl, ?ver_eqb_refl; try reflexivity|]); try contradiction.
 Qed.
@@ -394,9 +395,9 @@ Proof.
     rewrite forallb_forall in HK. specialize (HK s I). unfold slot_kind_ok in HK. rewrite HK. reflexivity.
 Qed.
 
-Theorem custom_refines_itself_lemma : forall k V n xt user cn,
+Theorem custom_refines_itself_lemma : forall bv k V n xt user cn,
   forallb slot_kind_ok user = true ->
-  class_refine_failures (custom_cls k V n xt user cn) (custom_cls k V n xt user cn) = [].
+  class_refine_failures (custom_cls bv k V n xt user cn) (custom_cls bv k V n xt user cn) = [].
 Proof.
   intros. apply self_refines; try reflexivity.
   - apply custom_slots_NoDup_lemma.
